@@ -174,6 +174,7 @@ NOTES = {
     'C19-opgraph-terminal-ids-aliased': 'round 4, first run: MISSED by C19 (caught by the C16 stand-in after its graph builder passed the caller-owned list). r_C19 builds two graphs from the same argument lists and flips / renames one; engine F has a frame contract for OpGraph.__init__ (only the node and edge objects may be kept)',
     'C16-edge-add-drops-cancelled-operators': 'round 4, first run: MISSED (the stand-in compared path polynomials only; an edge with an empty operator list has the right polynomial but breaks OpGraph.as_matrix). r_C16 now compares the dense meaning given by the library with the symbolic one after every rewrite, and adds graphs that cancel terms of the first one',
     'C20-local-chains-fit-check-off-by-one': 'round 4, first run: MISSED by C20 (the Schmidt rank was taken from the dense form of the constructed MPO itself). r_C20 takes it from the documented operator (independent reference of the C06 stand-in)',
+    'C11-small-int-promotion': 'round 5, first run: MISSED (integer matrices were always int64). r_C11 / r_C12 use every integer width and booleans',
     'C06-zero-coeff-filter-tolerance': 'first run: MISSED. r_C06 now includes parameter points scaled by 1e-9 ... 1e+12 (every parameter value is legal)',
 }
 
